@@ -165,7 +165,8 @@ class OrderedDoneSet(set):
 class Controller:
     """Decides every choice of one controlled execution (or of one scenario of several)."""
 
-    def __init__(self, prefix: Tuple[int, ...] = (), *, batch_order: bool = False, spin_bound: int = 64):
+    def __init__(self, prefix: Tuple[int, ...] = (), *, batch_order: bool = False, spin_bound: int = 64, early: bool = False):
+        self.early = early
         self.prefix = tuple(prefix)
         self.pos = 0
         self.choices: List[Tuple[str, int, int]] = []  # (kind, n options, chosen)
@@ -286,6 +287,25 @@ class Controller:
                 p.shutdown(wait=True)
             except Exception:
                 pass
+
+
+def early_point(c: "Controller", where: str) -> None:
+    """A pooled node may really finish at ANY moment, not only while the scheduler waits. The unchanged scheduler cannot
+    tell (it only learns of completions through the wait primitives), but code that polls future.done() can: when
+    enabled, every scheduler loop iteration and every dispatch decision is a choice point at which any subset of the
+    parked nodes finishes early (choice 0: none)."""
+    if not c.early or threading.get_ident() != c.main_ident:
+        return
+    recs = sorted((r for r in c.recs if r.entered.is_set() and not r.finished.is_set() and not r.gate.is_set()),
+                  key=lambda r: (str(r.id), r.n))
+    if not recs:
+        return
+    opts = subsets(len(recs))
+    i = c.choose("early", len(opts) + 1)
+    if i:
+        chosen = [recs[j] for j in opts[i - 1]]
+        c.ev("early", where, _ids(chosen))
+        c.complete(chosen)
 
 
 CTL: Optional[Controller] = None
@@ -516,6 +536,7 @@ def hooked_max(iterable, *, key=None, default=None):
     if c is None or not items:
         return _builtin_max(items, key=key) if items else default
     c.hook_hits["max"] += 1
+    early_point(c, "pick")
     keyed = [(key(x) if key else x, x) for x in items]
     best = _builtin_max(k for k, _ in keyed)
     cands = sorted(x for k, x in keyed if k == best)
@@ -568,6 +589,7 @@ def install() -> None:
         c = CTL
         if c is not None and threading.get_ident() == c.main_ident and getattr(c, "counting", False):
             c.len_calls += 1
+            early_point(c, "loop")
             if c.len_calls > c.spin_bound:
                 raise SpinDetected(f"scheduler loop iterated {c.len_calls} times with nothing happening")
         return nx.DiGraph.__len__(self)
@@ -611,11 +633,11 @@ class ExecResult:
         self.late = 0
 
 
-def run_controlled(op, *, prefix=(), is_async=False, batch_order=False, watchdog=30.0, ops_are_coroutines=None) -> ExecResult:
+def run_controlled(op, *, prefix=(), is_async=False, batch_order=False, watchdog=10.0, early=False) -> ExecResult:
     """Run `op` (a zero-argument callable; for is_async a zero-argument coroutine function) under a fresh
     controller that replays `prefix` and then takes choice 0 everywhere."""
     install()
-    c = Controller(prefix, batch_order=batch_order)
+    c = Controller(prefix, batch_order=batch_order, early=early)
     set_controller(c)
     res = ExecResult()
     arm_watchdog(watchdog)
